@@ -8,7 +8,7 @@
 // Sites, found with full type information (go list -export + go/types, working tree = VERIF_REPO or /repo):
 //
 //	range over a map; calls of time.Now / time.Since / time.Until; package-level math/rand functions
-//	(the unseeded global source); `go` statements and `select`.
+//	(the unseeded global source); `go` statements and `select`; calls of fan-in functions (fanin.go).
 //
 // Classes of a map range (decided on the loop body only, fail-closed):
 //
@@ -108,9 +108,10 @@ type scope struct {
 }
 
 type allowEntry struct {
-	Site   string `json:"site"`   // key of the site
-	Kind   string `json:"kind"`   // "lemma" (harmless, justified) | "limit" (documented dependence, not driven) | "finding" (confirmed divergence)
-	Reason string `json:"reason"` // justification or finding id
+	Site   string `json:"site"`           // key of the site
+	Kind   string `json:"kind"`           // "lemma" (harmless, justified) | "limit" (documented dependence, not driven) | "finding" (confirmed divergence)
+	Reason string `json:"reason"`         // justification or finding id
+	Cond   string `json:"cond,omitempty"` // side condition the entry relies on: "fan-in-no-item-id" (the site must be of class FanInValue)
 }
 
 type site struct {
@@ -119,8 +120,8 @@ type site struct {
 	File  string `json:"file"`
 	Line  int    `json:"line"`
 	Func  string `json:"func"`
-	Kind  string `json:"kind"`  // MapRange TimeNow GlobalRand Goroutine Select
-	Class string `json:"class"` // OrderFree CollectSort ExistsCheck OrderDep | Clock Rand Sched
+	Kind  string `json:"kind"`  // MapRange TimeNow GlobalRand Goroutine Select FanIn
+	Class string `json:"class"` // OrderFree CollectSort ExistsCheck OrderDep | Clock Rand Sched | FanInOrdered FanInConst FanInValue FanInItem (fanin.go)
 	Why   string `json:"why"`   // for OrderDep: first construct that made it so
 }
 
@@ -523,6 +524,13 @@ func main() {
 	}
 	sort.Strings(pkgs)
 	want := filepath.Join(repo(), "code/go/0chain.net")
+	counter := map[string]int{}
+	addSite := func(p, rel, fn string, n ast.Node, kind, class, why string) {
+		k := fmt.Sprintf("%s:%s:%s", rel, fn, kind)
+		counter[k]++
+		sites = append(sites, site{Key: fmt.Sprintf("%s#%d", k, counter[k]), Pkg: p, File: rel, Line: fset.Position(n.Pos()).Line,
+			Func: fn, Kind: kind, Class: class, Why: why})
+	}
 	for _, p := range pkgs {
 		lp := inScope[p]
 		if !strings.HasPrefix(lp.Dir, want) {
@@ -542,6 +550,8 @@ func main() {
 		if pkg, _ := conf.Check(p, fset, files, info); pkg == nil {
 			die("type check of %s failed", p)
 		}
+		pinfo := &pkgInfo{path: p, files: files, names: names, inScope: make([]bool, len(files)), info: info}
+		pkgInfos = append(pkgInfos, pinfo)
 		for i, af := range files {
 			base := names[i]
 			if only := extraPk[p]; only != nil {
@@ -559,13 +569,8 @@ func main() {
 				continue
 			}
 			rel := strings.TrimPrefix(p, "0chain.net/") + "/" + base
-			counter := map[string]int{}
-			add := func(fn string, n ast.Node, kind, class, why string) {
-				k := fmt.Sprintf("%s:%s:%s", rel, fn, kind)
-				counter[k]++
-				sites = append(sites, site{Key: fmt.Sprintf("%s#%d", k, counter[k]), Pkg: p, File: rel, Line: fset.Position(n.Pos()).Line,
-					Func: fn, Kind: kind, Class: class, Why: why})
-			}
+			pinfo.inScope[i] = true
+			add := func(fn string, n ast.Node, kind, class, why string) { addSite(p, rel, fn, n, kind, class, why) }
 			for _, d := range af.Decls {
 				fd, ok := d.(*ast.FuncDecl)
 				if !ok || fd.Body == nil {
@@ -618,6 +623,9 @@ func main() {
 			}
 		}
 	}
+	fanInSites(func(rel, fn string, n ast.Node, kind, class, why string) {
+		addSite("0chain.net/"+rel[:strings.LastIndex(rel, "/")], rel, fn, n, kind, class, why)
+	})
 	sort.Slice(sites, func(i, j int) bool { return sites[i].Key < sites[j].Key })
 	byKey := map[string]bool{}
 	for _, s := range sites {
@@ -629,6 +637,9 @@ func main() {
 		}
 		if a.Kind != "lemma" && a.Kind != "finding" && a.Kind != "limit" {
 			die("allow list entry %q: kind must be lemma, limit or finding", a.Site)
+		}
+		if a.Cond != "" && a.Cond != "fan-in-no-item-id" {
+			die("allow list entry %q: unknown side condition %q", a.Site, a.Cond)
 		}
 	}
 	// ---- output ----
@@ -658,7 +669,15 @@ func main() {
 		}
 		fmt.Fprintf(&o, "  (%s, %s, %s)%s\n", q(a.Site), k, q(a.Reason), sep)
 	}
-	o.WriteString("].\n")
+	o.WriteString("].\n\n(* side conditions of allow-list entries: site key, condition *)\nDefinition gen_nd_allow_cond : list (string * string) := [\n")
+	var conds []string
+	for _, a := range allow {
+		if a.Cond != "" {
+			conds = append(conds, fmt.Sprintf("  (%s, %s)", q(a.Site), q(a.Cond)))
+		}
+	}
+	o.WriteString(strings.Join(conds, ";\n"))
+	o.WriteString("\n].\n")
 	js, _ := json.MarshalIndent(sites, "", " ")
 	write := func(path string, data []byte) {
 		old, _ := os.ReadFile(path)
